@@ -372,7 +372,7 @@ func evalIsProper(ic ipcCase) *Failure {
 
 func runC09(c *Ctx) {
 	c.Level = "exploration"
-	c.Rule = "every labelled graph with n<=5 in four representations (dense, sparse, complement-of-complement view, induced-subgraph view), n=6 dense+sparse (n=7 dense in thorough); brute-force oracles (subset enumeration, exhaustive colouring, colouring counts for k=0..n, edge colouring of the line graph, min-degree over all induced subgraphs) computed once per isomorphism class (explicit orbit sweep) and required of every labelled member, witnesses validated per member; IsKColorable for every k in [0,n+1]; GreedyColor for every vertex order (n<=5; n=6 thorough); IsProperColouring on every colouring over {-1,0,1,2} of graphs with n<=4; non-trivial = graph with at least one edge"
+	c.Rule = "every labelled graph with n<=5 in four representations (dense, sparse, complement-of-complement view, induced-subgraph view), n=6 dense+sparse (n=7 dense in thorough); brute-force oracles (subset enumeration, exhaustive colouring, colouring counts for k=0..n, edge colouring of the line graph, min-degree over all induced subgraphs) computed once per isomorphism class (explicit orbit sweep) and required of every labelled member, witnesses validated per member; IsKColorable for every k in [0,n+1]; unions of trees and cycles with 13-20 vertices against closed forms (chromatic polynomial product formula, chi, omega, alpha, degeneracy, chromatic index) under relabellings; GreedyColor for every vertex order (n<=5; n=6 thorough); IsProperColouring on every colouring over {-1,0,1,2} of graphs with n<=4; non-trivial = graph with at least one edge"
 	maxDense := 6
 	if c.Thorough() {
 		maxDense = 7
@@ -468,6 +468,7 @@ func runC09(c *Ctx) {
 			c.Check(func() *Failure { return evalIsProper(ic) })
 		}
 	}
+	c09Large(c)
 	// the view representations stay live: query, edit the underlying graph, query again
 	var vcs []viewCase
 	for n := 3; n <= 5; n++ {
@@ -539,6 +540,10 @@ func replayC09(kind string, raw json.RawMessage) *Failure {
 		var gc giCase
 		json.Unmarshal(raw, &gc)
 		return evalC09(gc, nil)
+	case "c09-large":
+		var lc c09LargeCase
+		json.Unmarshal(raw, &lc)
+		return evalC09Large(lc)
 	case "view-history":
 		var vc viewCase
 		json.Unmarshal(raw, &vc)
